@@ -950,14 +950,26 @@ func c18LendTracker(t *testing.T, tr *Trace, rng *Rng, a *c18App) {
 			// what the accrual function returns for this step (REAL function; also compared with the model)
 			a2 := &c18App{app: app, ctx: sctx}
 			a2.c18LendCall(tr, "lend", lend.AmountIn.Amount, apr.BigInt(), nil, lend.GlobalIndex.BigInt(), nil, now, lend.LastInteractionTime.Unix())
-			x, _, err := k.CalculateLendReward(sctx, lend.AmountIn.Amount.String(), apr, lend)
+			x, igc, err := k.CalculateLendReward(sctx, lend.AmountIn.Amount.String(), apr, lend)
 			must(err)
 			trB := "0"
 			if tk, f := k.GetLendRewardTracker(sctx, 1); f {
 				trB = c18Raw(tk.RewardsAccumulated)
 			}
 			var idx sdk.Dec
-			panicked, _ := try(func() { idx, err = k.IterateLends(sctx, 1) })
+			// half of the steps: the keeper function behind MsgCalculateInterestAndRewards, which calls IterateLends and then
+			// stores (index, now) itself; otherwise IterateLends directly, followed by what its callers do
+			useMsg := rng.Chance(50)
+			var panicked bool
+			if useMsg {
+				cc, write := sctx.CacheContext()
+				panicked, _ = try(func() { err = k.MsgCalculateLendRewards(cc, owner.String(), 1) })
+				if !panicked && err == nil {
+					write()
+				}
+			} else {
+				panicked, _ = try(func() { idx, err = k.IterateLends(sctx, 1) })
+			}
 			if panicked || err != nil {
 				tr.Count("lendtrack:" + c18Outcome(panicked, err))
 				break
@@ -969,6 +981,22 @@ func c18LendTracker(t *testing.T, tr *Trace, rng *Rng, a *c18App) {
 			tr.Count("lendtrack:ok")
 			if paid.IsPositive() {
 				tr.Count("lendtrack:paid")
+			}
+			if useMsg {
+				// the clock of the position: the handler stored (index returned by CalculateLendReward, now)
+				tr.Line("lr.stamp", i64(now), i64(lend2.LastInteractionTime.Unix()), c18Raw(lend2.GlobalIndex), c18Raw(igc))
+				tr.Count("lendtrack:msg")
+				// governance changes the rate parameters in the same block; a second calculation must accrue nothing (zero
+				// time), whatever the lend rate has become
+				p, _ := k.GetAssetRatesParams(sctx, assetID)
+				p.Slope1 = c18DecI(int64(1 + rng.U64()%900000000000000000))
+				p.Base = c18DecI(int64(rng.U64() % 50000000000000000))
+				k.SetAssetRatesParams(sctx, p)
+				apr2, err := k.GetLendAPRByAssetIDAndPoolID(sctx, poolID, assetID)
+				must(err)
+				a2.c18LendCall(tr, "lend", lend2.AmountIn.Amount, apr2.BigInt(), nil, lend2.GlobalIndex.BigInt(), nil, now, lend2.LastInteractionTime.Unix())
+				tr.Count("lendtrack:same_block_after_rate_change")
+				continue
 			}
 			// what every caller of IterateLends does next
 			lend2.GlobalIndex = idx
